@@ -151,7 +151,8 @@ def native_globals():
     return {"FunctionalComponent": FunctionalComponent}
 
 
-_ST = {"N": ("[N]", "[M, K]"), "K": ("[K]", "[M, N]"), "MK": ("[K, N]", "[M]")}
+_ST = {"N": ("[N]", "[M, K]"), "K": ("[K]", "[M, N]"), "none": ("[]", "[M, K, N]")}
+_LO = {"MKN": "[M, K, N]", "KMN": "[K, M, N]"}
 
 
 def _yaml(history):
@@ -162,10 +163,15 @@ def _yaml(history):
     for n in names:
         y += "    %s: [K, M, N]\n" % n
     y += "  expressions:\n" + "".join("  - %s\n" % e for e in exprs)
-    y += "mapping:\n  loop-order:\n" + "".join("    %s: [M, K, N]\n" % n for n in names)
+    y += "mapping:\n  loop-order:\n" + "".join("    %s: %s\n" % (n, _LO[h[3]]) for n, h in zip(names, history))
     y += "  spacetime:\n"
-    for n, (cfg, st, comp) in zip(names, history):
-        y += "    %s:\n      space: %s\n      time: %s\n" % (n, _ST[st][0], _ST[st][1])
+    for n, (cfg, st, comp, lo) in zip(names, history):
+        sp, tm = _ST[st]
+        if st == "none":
+            tm = _LO[lo]
+        elif lo == "KMN":
+            tm = {"N": "[K, M]", "K": "[M, N]"}[st]
+        y += "    %s:\n      space: %s\n      time: %s\n" % (n, sp, tm)
     y += ("format:\n  Z:\n    default:\n      rank-order: [M, N]\n      M:\n        format: C\n      N:\n"
           "        format: C\n        pbits: 32\n")
     y += ("architecture:\n  configA:\n  - name: System\n    local:\n    - name: FPMul0\n      class: compute\n"
@@ -174,22 +180,33 @@ def _yaml(history):
           "      attributes:\n        type: mul\n    - name: FPMul1\n      class: compute\n      attributes:\n"
           "        type: mul\n")
     y += "bindings:\n"
-    for n, (cfg, st, comp) in zip(names, history):
+    for n, (cfg, st, comp, lo) in zip(names, history):
         y += "  %s:\n  - config: config%s\n    prefix: tmp/%s\n" % (n, cfg, n)
-        for c in comp:
-            y += "  - component: FPMul%s\n    bindings:\n    - op: mul\n" % c
+        if comp == "e0":
+            y += "  - component: FPMul0\n    bindings: []\n"
+        else:
+            for c in comp:
+                y += "  - component: FPMul%s\n    bindings:\n    - op: mul\n" % c
     return y
 
 
 def _histories(maxlen=3):
+    """decisive small histories first: one config, then everything of length <= 2"""
     import itertools
-    steps = [(cfg, st, comp) for cfg in "AB" for st in ("N", "K") for comp in ("", "0", "1", "01")]
+    core = [("A", st, comp, lo) for st in ("N", "none") for comp in ("", "0", "e0", "1") for lo in ("MKN", "KMN")]
+    full = [(cfg, st, comp, lo) for cfg in "AB" for st in ("N", "K", "none") for comp in ("", "0", "1", "01", "e0")
+            for lo in ("MKN", "KMN")]
+    seen = set()
     for n in range(1, maxlen + 1):
-        for h in itertools.product(steps, repeat=n):
-            # keep the space small but decisive: vary everything in the last step, little before
-            if n > 1 and any(s[1] == "K" and s[0] == "B" for s in h[:-1]):
+        for h in itertools.product(core, repeat=n):
+            if n == 3 and (h[0][3] != "MKN" or h[1][3] != "MKN"):
                 continue
+            seen.add(h)
             yield list(h)
+    for n in range(1, min(maxlen, 2) + 1):
+        for h in itertools.product(full, repeat=n):
+            if h not in seen:
+                yield list(h)
 
 
 def _gen_add_einsum(maxlen=3):
